@@ -488,6 +488,15 @@ def rule_map_discovery(c, R, F, inline_value):
     c.expect(bool(okd), R, R + "/inline-payload", where, "decodes the last line after the inline marker", "the decoded text is %s, not the last line after the inline marker" % JF.text(a0)[:80])
     if okd:
         receivers.append((_callee(a0)["object"], top, a0))
+    # ... and read as UTF-8 (the Rust side writes the map as UTF-8 JSON; source names are not ASCII only)
+    par = F.parent(F.parent(dec[0])) if F.parent(dec[0]) is not None else None
+    tostr = None
+    for anc in F.ancestors(dec[0]):
+        if anc.get("type") == "CallExpression" and method_name(anc) == "toString" and any(x is dec[0] for x in jsast.walk(_callee(anc))):
+            tostr = anc
+            break
+    enc = args(tostr)[0].get("value") if tostr is not None and args(tostr) else None
+    c.expect(tostr is not None and (enc is None or str(enc).lower().replace("-", "") == "utf8"), R, R + "/inline-utf8", where, "the decoded bytes are read as UTF-8", "the decoded map is not read as UTF-8 (%s): non-ASCII source names come out garbled" % (("toString(%r)" % enc) if tostr is not None else "no Buffer#toString"))
     # the raw map variable
     raw = None
     for n in jsast.walk(top):
